@@ -143,7 +143,8 @@ Definition gstep (g : ghost) (e : wev) : ghost :=
   | WReq h _ => mkGhost (gh_phase g) (gh_text g) (Some h) false (gh_unans g + 1) true
   | WIdle => mkGhost (gh_phase g) (gh_text g) (gh_last g) (gh_acc g) 0 false
   | WEvent EvOffline => mkGhost PhNeedDiag PhNeedDiag None false 0 false
-  | WEvent _ => mkGhost (gh_phase g) (gh_text g) (gh_last g) (gh_acc g) 0 false   (* does not occur: ev_ok *)
+  | WEvent ev =>                                                                   (* does not occur: ev_ok *)
+      mkGhost (gh_phase g) (if offline_event (Some ev) then PhNeedDiag else gh_text g) (gh_last g) (gh_acc g) 0 false
   | WReply t ev =>
       let sv := match gh_last g with Some h => classify h | None => SvOther end in
       let acc := reply_accepted sv t in        (* the standard's view; SvOther accepts nothing *)
